@@ -104,7 +104,7 @@ func Check(c *core.Ctx) (map[string]any, []string, error) {
 	add := func(r *progRec, route string) {
 		next++
 		byID[next] = key{r, route}
-		enc.Encode(traceLine{ID: next, Prog: r.prog, IsEval: false, Obs: r.obs[route]})
+		enc.Encode(traceLine{ID: next, Prog: r.prog, IsEval: route == "eval", Obs: r.obs[route]})
 	}
 	for _, r := range recs {
 		base, ok := r.obs["source"]
